@@ -296,8 +296,9 @@ def judge(scn, child):
         return viols
     if child["hazards"]:
         viols.append(("parser-use-after-free", "parse tree of an older parse touched: %s" % (child["hazards"][:2],), {}))
-    if child["open_conns"]:
-        viols.append(("connection-left-open", str(child["open_conns"]), {}))
+    # (connections still open after the calls are reported in the evidence only: C17 speaks of what the calls
+    # return; resources are C16's subject, and a change that keeps a process-wide connection on purpose would
+    # otherwise be flagged for something the property does not state)
     for ti, calls in enumerate(scn["threads"]):
         got = child["results"].get("T%d" % ti)
         if got is None:
@@ -341,7 +342,7 @@ def task_scenarios(task):
         rec = {"seed": seed, "steps": child["steps"], "switches": len(child["schedule"]), "interleaving": child["interleaving"],
                "shared_digest": child["shared_digest"], "strategy": scn["strategy"]["kind"], "lock_contended": child["lock_contended"],
                "lock_acquisitions": child["lock_acquisitions"], "shared_events": child["shared_events"],
-               "sw_shared": child["switches_at_shared_state"],
+               "sw_shared": child["switches_at_shared_state"], "open_conns": len(child["open_conns"]),
                "n_threads": len(scn["threads"]), "n_calls": sum(len(c) for c in scn["threads"]),
                "kinds": sorted({_kind(x["op"]) for cl in scn["threads"] for x in cl}), "viols": []}
         if viols:
@@ -436,7 +437,7 @@ def run(ctx):
         tasks.append({"scenarios": part, "alone": {k: alone_map[k] for k in keys if k in alone_map}})
     done = ctx.map("task_scenarios", tasks, budget_s=ctx.budget_s * 0.8, min_tasks=24)
     violations, inter, samples = [], set(), []
-    n_eval = steps = switches = contended = shared = 0
+    n_eval = steps = switches = contended = shared = open_after = 0
     by_strategy = {}
     kinds = {}
     for _t, res in done:
@@ -446,6 +447,7 @@ def run(ctx):
             switches += r["switches"]
             contended += r["lock_contended"]
             shared += r["shared_events"]
+            open_after += r.get("open_conns", 0)
             by_strategy[r["strategy"]] = by_strategy.get(r["strategy"], 0) + 1
             for k in r["kinds"]:
                 kinds[k] = kinds.get(k, 0) + 1
@@ -474,7 +476,7 @@ def run(ctx):
                 "distinct_nontrivial = distinct (scenario, interleaving digest, digest of the (thread, shared-state line) subsequence) with >= 2 thread switches of which >= 1 happened at a line that touches process-global state (or at a simulated lock).",
         "samples": samples or [{"note": "none"}],
         "simulated_steps": steps, "thread_switches": switches, "simulated_lock_contentions": contended,
-        "shared_state_line_events": shared, "scenarios_by_strategy": by_strategy, "scenarios_by_call_kind": kinds,
+        "shared_state_line_events": shared, "connections_still_open_after_scenarios_informational": open_after, "scenarios_by_strategy": by_strategy, "scenarios_by_call_kind": kinds,
         "tasks_skipped_by_budget": getattr(ctx, "last_skipped", 0),
         "fault_kinds_fired": {"thread_preemption": switches, "lock_contention": contended},
     }
